@@ -36,6 +36,124 @@ def proj(ob):
     return ob[:5] + [ob[7]]
 
 
+def gen_script(rng, nops, has_chars):
+    """a random call sequence that stays inside the operations LexerAPI.tla enables; tracks only what decides that
+    (which slots are live, wrapped by spanned(), of which token type)"""
+    live, sp, kind = [True, False], [False, False], ["A", "-"]
+    ops = []
+    while len(ops) < nops:
+        i = rng.randrange(2)
+        if not live[i]:
+            i = 0 if live[0] else 1
+        j = 1 - i
+        x = rng.random()
+        if x < 0.42:
+            ops.append("n%d" % i)
+        elif x < 0.62:
+            ops.append("b%d:%s" % (i, rng.choice(["0", "1", "1", "2", "2", "MAX-0", "MAX-1"])))
+        elif x < 0.70:
+            ops.append("c%d:%d" % (i, j))
+            live[j], sp[j], kind[j] = True, sp[i], kind[i]
+        elif x < 0.78:
+            if live[j] and kind[j] == kind[i] and sp[j] == sp[i]:
+                ops.append("k%d:%d" % (i, j))
+        elif x < 0.90:
+            if not sp[i]:
+                ops.append("m%d" % i)
+                kind[i] = "B" if kind[i] == "A" else "A"
+        elif x < 0.94:
+            if not sp[i]:
+                ops.append("s%d" % i)
+                sp[i] = True
+        elif has_chars:
+            ops.append("f1")
+            live[1], sp[1], kind[1] = True, False, "A"
+    return ops
+
+
+def api_trace(tier, seed, cfgs, bins, pairs, char_bytes, tla_defs, api_defs, metas_by_idx):
+    """code -> specification: long seeded random call sequences run on the real lexers, every recorded call validated
+    against LexerAPI.tla by ApiTrace.tla (TLC, one worker, acceptance by postcondition)"""
+    rng = random.Random(seed + 77)
+    nruns = 5 if tier == "quick" else 60
+    runs = []
+    for (pidx, ia, ib, is_str) in pairs:
+        td = tla_defs[ia - 1]
+        for partial in (False, True):
+            for _ in range(nruns):
+                chars = [rng.randrange(1, len(td["chars"]) + 1) for _ in range(rng.randint(3, 9))]
+                ops = gen_script(rng, rng.randint(20, 36), True)
+                cb = char_bytes[ia]
+                data = b"".join(bytes(cb[c - 1]) for c in chars)
+                data2 = b"".join(bytes(cb[c - 1]) for c in chars[1:] + chars[:1])
+                runs.append({"pidx": pidx, "d": ia, "chars": chars, "partial": partial, "ops": ops,
+                             "line": "S %d %s %s %s %s" % (pidx, "p" if partial else "f", data.hex(), ";".join(ops), data2.hex()), "hex": data.hex()})
+    findings = []
+    n_events = 0
+    n_runs = 0
+    from pipeline import run_subject as _rs
+    for c in cfgs:
+        reps = _rs(bins[c], [r["line"] for r in runs], timeout=1200)
+        events, starts = [], []
+        for r, rep in zip(runs, reps):
+            pid = metas_by_idx[r["d"]]["id"]
+            if "ops" not in rep or len(rep["ops"]) != len(r["ops"]):
+                findings.append({"pair": pid, "cfg": c, "kind": "api", "input": r["hex"], "partial": r["partial"], "script": ";".join(r["ops"]), "why": "random call sequence: no result: %s" % (str(rep)[:200],), "expected": None, "got": None})
+                continue
+            starts.append((len(events), r))
+            events.append({"e": "run", "d": r["d"], "chars": r["chars"], "partial": r["partial"]})
+            for k, (op, o) in enumerate(zip(r["ops"], rep["ops"])):
+                for ob in o["obs"]:
+                    if ob[0] != "-" and not (ob[5] and ob[6]):
+                        findings.append({"pair": pid, "cfg": c, "kind": "bump" if op.startswith("b") else "api", "input": r["hex"], "partial": r["partial"], "script": ";".join(r["ops"][: k + 1]),
+                                         "why": "random call sequence: slice()/remainder() disagree with source[span()] : %s" % (ob,), "expected": None, "got": o})
+                events.append({"e": "op", "op": op, "res": o["r"], "obs": [proj(ob) for ob in o["obs"]]})
+        tp = os.path.join(os.path.dirname(api_defs), "apitrace-%s-%d.ndjson" % (c, os.getpid()))
+        with open(tp, "w") as f:
+            for e in events:
+                f.write(json.dumps(e) + "\n")
+        res = run_tlc("ApiTrace.tla", "ApiTrace.cfg", {"DEFS": api_defs, "MAXLEN": "9", "MAXOPS": "40", "FRESH": "1", "TRACE": tp}, workers=1, metaname="apitrace-" + c,
+                      timeout=3000, xss="1g", deque=True)
+        n_events += len(events)
+        n_runs += len(starts)
+        if res["ok"] and c == cfgs[0]:
+            # the binding is not vacuous: the accepted trace with ONE span end of ONE recorded observation changed by one
+            # must be rejected, at that event
+            bad = [dict(e) for e in events]
+            kbad = next((i for i, e in enumerate(bad) if i > len(bad) // 3 and e["e"] == "op" and e["obs"][0][0] != "-"), None)
+            if kbad is not None:
+                ob = [list(x) for x in bad[kbad]["obs"]]
+                ob[0][3] += 1
+                bad[kbad] = dict(bad[kbad], obs=ob)
+                bp = tp + ".corrupt"
+                with open(bp, "w") as f:
+                    for e in bad:
+                        f.write(json.dumps(e) + "\n")
+                resb = run_tlc("ApiTrace.tla", "ApiTrace.cfg", {"DEFS": api_defs, "MAXLEN": "9", "MAXOPS": "40", "FRESH": "1", "TRACE": bp}, workers=1, metaname="apitrace-corrupt",
+                               timeout=3000, xss="1g", deque=True)
+                rejb = [r[2] for r in tlc_records(resb) if r[0] == "REJECTED"]
+                if resb["ok"] or not rejb or rejb[0]["at"] != kbad:
+                    raise ToolError("ApiTrace.tla accepted a corrupted trace, or rejected it elsewhere (event %d): the trace validation is vacuous" % kbad)
+                os.remove(bp)
+        if res["ok"]:
+            continue
+        rej = [r[2] for r in tlc_records(res) if r[0] == "REJECTED"]
+        if not rej:
+            if "SpanInv" in res["out"] and "violated" in res["out"]:
+                findings.append({"pair": "?", "cfg": c, "kind": "bump", "input": "", "partial": False, "script": "", "why": "ApiTrace.tla: SpanInv violated along a recorded call sequence:\n" + res["out"][-1500:], "expected": None, "got": None})
+                continue
+            raise ToolError("ApiTrace.tla failed without a verdict (%s):\n%s" % (c, res["out"][-3000:]))
+        at = rej[0]["at"]                      # events consumed; the next one is the one no operation explains
+        st, r = max((s for s in starts if s[0] <= at), key=lambda s: s[0])
+        k = at - st - 1                        # index of the rejected call within the run
+        ev = rej[0]["event"]
+        op = ev.get("op", "?")
+        findings.append({"pair": metas_by_idx[r["d"]]["id"], "cfg": c, "kind": "bump" if op.startswith("b") else "api", "input": r["hex"], "partial": r["partial"],
+                         "script": ";".join(r["ops"][: k + 1]), "why": "recorded call sequence rejected by LexerAPI.tla (ApiTrace) at call %d: %s returned %s, observation %s" % (k, op, ev.get("res"), ev.get("obs")),
+                         "expected": None, "got": ev})
+    return {"runs": n_runs, "events": n_events, "findings": findings}
+
+
 def api_run(name, tier, seed, cfgs):
     t0 = time.time()
     defs = pair_corpus()
@@ -183,11 +301,14 @@ def api_run(name, tier, seed, cfgs):
                     why = "observation: expected %s got %s" % (obs_exp, got_obs)
                 if why:
                     add(kind, script, why, {"res": res_exp, "obs": obs_exp}, o)
+    tr = api_trace(tier, seed, cfgs, bins, pairs, char_bytes, tla_defs, api_defs, meta_by_idx)
+    findings += tr["findings"]
+    log("[api] trace validation: %d recorded call sequences, %d events validated by ApiTrace.tla over %d configurations, %d findings" % (tr["runs"], tr["events"], len(cfgs), len(tr["findings"])))
     requests_flat = [(l, dict(i, script=";".join(i["hist"]), res=i["ops"][0][1] if i["ops"] else None, obs=i["ops"][0][2] if i["ops"] else None)) for (l, i) in requests]
     samples = [{"pair": meta_by_idx[i["d"]]["id"], "input_hex": i["data"], "partial": i["partial"], "history": i["hist"], "operations_with_expected_result_and_observation": i["ops"][:4]}
                for (l, i) in requests[:: max(1, len(requests) // 5)][:5]]
     out = {"tlc": {k: res[k] for k in ("states", "distinct", "depth", "wall")}, "histories": n_hist, "runs": n_hist * len(cfgs),
-           "states_with_ops": len(recs), "cfgs": cfgs, "maxlen": maxlen, "maxops": maxops, "simulated_deep_states": n3, "simulated_traces": ntr, "findings": findings[:3000], "n_findings": len(findings),
+           "states_with_ops": len(recs), "cfgs": cfgs, "maxlen": maxlen, "maxops": maxops, "simulated_deep_states": n3, "simulated_traces": ntr, "trace_runs": tr["runs"], "trace_events": tr["events"], "findings": findings[:3000], "n_findings": len(findings),
            "samples": samples, "wall": time.time() - t0, "pairs": [p[0] for p in pairs]}
     with open(cache, "w") as f:
         json.dump(out, f)
